@@ -588,6 +588,10 @@ def r7(ctx):
         if gs and gs[-1][0] == "if" and gs[-1][1]["k"] != "LetE":
             pos_, neg_ = guard_atoms([gs[-1]])
             last_chased = " ".join(render(locs_.chase(a_)) for a_ in pos_ + neg_)
+            # the condition may reach check_file through a helper (inlined by the normaliser; `render` abbreviates nested
+            # blocks): look at the tree, not at its text
+            if any(y["k"] == "MCall" and y["m"] == "check_file" for a_ in pos_ + neg_ for y in walk_exprs(locs_.chase(a_))):
+                last_chased += " check_file"
         cls = None
         if x["k"] == "Break" and last.endswith("is Option::None {..}") and "Iterator::next" in last:
             cls = "loop-exhausted"
